@@ -20,7 +20,7 @@ func (c16) Runs(tier string) int {
 	if tier == "thorough" {
 		return 60000
 	}
-	return 200
+	return 160
 }
 func (c16) Rule() string {
 	return "per run a template tree (layout, components, pages that succeed / fail at run time, optional custom error page, debug on/off, custom functions) is generated and loaded on the simulated disk; an operation alphabet {String, Response (healthy / failing writer), EvaluateString, EvaluateFile (present / missing / EIO)} x {succeeding, failing, unknown name} is derived from it. Every fourth run sweeps ALL ordered pairs of the alphabet (exhaustive for length 2 on that tree), the others run seeded random histories of length 3..12. Oracle: each operation's observation equals the observation of the same operation issued first after a fresh reset + identical setup; caller data deep-equal to a private copy; after the history every page re-renders to its baseline. evaluations = operations executed inside histories. distinct_nontrivial = distinct histories (content hash) of length >= 2 that contain a failing operation or a string/file evaluation before a template render."
@@ -148,6 +148,17 @@ func genC16Tree(r *Rng) (*Scenario, *Tree, []Op) {
 		File{Path: t.path("floaty"), Data: "@for(f = 2.0; f > 0.0; f--)[{{ f }}]@end{{ base = 9.5 }}{{ base-- }}|{{ n = 3 }}{{ n++ }}|{{ g = 1.5 }}{{ g++ }}", Role: "page"},
 		File{Path: t.path("revpage"), Data: "<p>{{ xs.rev() }}</p><p>{{ xs }}</p>", Role: "page"},
 	)
+	// variants of the first page that fail (or not, depending on the data value zf) at a seeded
+	// statement boundary — top level, inside if/else, loops, inserts, component slots
+	fpTree := GenTree(NewRng(r.Uint64()), TreeOpts{WantFP: true, Pages: 1, Depth: 2, Dir: t.Cfg.Dir, Ext: t.Cfg.Ext})
+	fpPage := fpTree.Pages[0]
+	fpSrc := fpTree.Files[fpTree.FileOf(fpPage)].Data
+	nfp := fpTree.FPs[fpPage]
+	for k := 0; k < 3 && nfp > 0; k++ {
+		at := r.Intn(nfp)
+		sc.Files = append(sc.Files, File{Path: t.path(fmt.Sprintf("fpvar%d", k)), Data: Instantiate(fpSrc, at, "{{ 1 / zf }}"), Role: "page"})
+	}
+	sc.Extra = map[string]any{"fpdata": toJSON(fpTree.Data)}
 	bad := File{Path: t.Cwd + "/other/eio.txt", Data: "x", ReadErr: "EIO", Role: "other"}
 	sc.Files = append(sc.Files, bad)
 	sc.Setup = []Op{
@@ -156,7 +167,18 @@ func genC16Tree(r *Rng) (*Scenario, *Tree, []Op) {
 		{Kind: "register", Recv: "arr", Name: "rev", Fn: 4},
 		t.LoadOp(),
 	}
-	return sc, t, treeAlphabet(r, t, []File{bad})
+	alpha := treeAlphabet(r, t, []File{bad})
+	// the failing / succeeding data variants of the failure-point pages
+	for k := 0; k < 3 && nfp > 0; k++ {
+		for _, zf := range []int{0, 1} {
+			d := &Val{T: "map", K: append(append([]string{}, fpTree.Data.K...), "zf"), V: append(append([]Val{}, fpTree.Data.V...), VInt(zf))}
+			alpha = append(alpha, Op{Kind: "string", Name: fmt.Sprintf("fpvar%d", k), Data: d})
+			if zf == 0 && k == 0 {
+				alpha = append(alpha, Op{Kind: "response", Name: fmt.Sprintf("fpvar%d", k), Data: d})
+			}
+		}
+	}
+	return sc, t, alpha
 }
 
 // setupWorldKeep is setupWorld without the reset: the process keeps whatever
@@ -365,6 +387,13 @@ func (p c16) Run(seed uint64, run int, tier string, acc *Acc) *Violation {
 	var ops []Op
 	for i := 0; i < n; i++ {
 		ops = append(ops, Pick(r, alpha))
+	}
+	if r.Chance(10) {
+		// threshold effects: the same two operations many times over
+		a, b := Pick(r, alpha), Pick(r, alpha)
+		for i := 0; i < 40; i++ {
+			ops = append(ops, a, b)
+		}
 	}
 	ops = append(ops, final...)
 	if run%97 == 1 {
